@@ -63,13 +63,24 @@ class FalsyRec(P.Rec):
 def variant(case):
     """prefeed / generator exception / falsy handlers, derived from the case itself (the seeded stream of histories is not
     touched)"""
-    if 'gen' in case:
-        return case['gen']
+    if 'gen' in case:                   # frozen (a case that is being shrunk): the generator starts at the record stamped `from_ts`
+        g = dict(case['gen'])
+        if 'from_ts' in g:
+            g['prefeed'] = sum(1 for e in case['events'] if e[0] < g['from_ts'])
+        return g
     h = zlib.crc32(json.dumps(case['events']).encode())
     n = len(case['events'])
     pre = 0 if h % 3 else (h // 7) % (n + 1)
     err = [None, None, None, 'EOF', 'ValueError', 'KeyError'][(h // 11) % 6]
     return {'prefeed': pre, 'err': err, 'falsy': (h // 13) % 8 == 0}
+
+
+def freeze(case):
+    """the case with its variant written out, so that dropping records does not change it"""
+    v = dict(variant(case))
+    evs = case['events']
+    v['from_ts'] = evs[v['prefeed']][0] if v['prefeed'] < len(evs) else (evs[-1][0] + 1 if evs else 0)
+    return dict(case, gen=v)
 
 
 def stub_parser(case, falsy):
@@ -405,4 +416,5 @@ def replay_registry(rp):
     res = registry_oracle(real, fams)
     print('families merged by the generated __init__:', generated_updates()[1])
     print('names per family:', {f: len(fams[f]) for f in FAMILIES}, ' registered:', len(real))
-    return res[0][:2] if res else None
+    mine = [r for r in res if r[2].get('name') == rp.get('name')] or res
+    return mine[0][:2] if mine else None
